@@ -33,6 +33,9 @@ fn run_engine(engine: &str, ctx: &mut Ctx) {
         "tlv-c11" => wpmon::engines::tlv::run_c11(ctx),
         "tlv-c12" => wpmon::engines::tlv::run_c12(ctx),
         "vtime" => wpmon::engines::vtime::run(ctx),
+        "abt" => wpmon::engines::abt::run(ctx),
+        "park" => wpmon::engines::park::run(ctx),
+        "nfs" => wpmon::engines::nfs::run(ctx),
         "deque-c15" => wpmon::engines::deque::run_c15(ctx),
         "deque-c16" => wpmon::engines::deque::run_c16(ctx),
         other => {
